@@ -507,8 +507,20 @@ class Endpoint:
         prev, W.cur = W.cur, self
         rec.exc, rec.died = None, False
         try:
-            self.ctl.main_loop()
-            rec.died, rec.exc = True, RuntimeError('main_loop returned')
+            if self.sim.direct_dispatch and udp is not None and not control and xfrm_event is None:
+                # entry-point granularity: IkeSaController.dispatch_message alone, without the timer sweeps of the loop
+                # (this is the granularity at which the repository's own controller tests observe the table)
+                src, dst, data = udp
+                self.udp_in[ipaddress.ip_address(dst)].clear()
+                if not self.udp_socks:
+                    s_ = _UdpSock(self)
+                    s_.bind((dst, 500))
+                reply = self.ctl.dispatch_message(data, ipaddress.ip_address(dst), src)
+                if reply:
+                    self.outbox.append((str(dst), str(src), bytes(reply)))
+            else:
+                self.ctl.main_loop()
+                rec.died, rec.exc = True, RuntimeError('main_loop returned')
         except LoopExit:
             pass
         except Exception as ex:     # the daemon would have terminated here
@@ -559,6 +571,7 @@ class Sim:
         self.trace = []          # brief records for witnesses
         self.wire = []           # every datagram put on the wire: (n, src, dst, data)
         self.keep_trace = True
+        self.direct_dispatch = False   # True: datagrams go to dispatch_message directly (no loop sweeps)
 
     def add(self, name, addrs, confdict, kernel=None, cookie_threshold=None):
         ep = Endpoint(self, name, addrs, confdict, kernel, cookie_threshold)
